@@ -13,7 +13,10 @@ func header(suite Suite, _ kyber.Point, x kyber.Scalar,
 
 	// Encrypt the master scalar key with each public key in the set
 	S := suite.Point()
-	hdr := xb1
+	// start from a copy: appending to xb1 itself would write into the caller's
+	// buffer (the ciphertext being checked against this header when decrypting)
+	hdr := make([]byte, len(xb1), len(xb1)+len(anonymitySet)*len(xb2))
+	copy(hdr, xb1)
 	for i := range anonymitySet {
 		Y := anonymitySet[i]
 		S.Mul(x, Y) // compute DH shared secret
